@@ -208,10 +208,17 @@ func C04(rep *ev.Reporter, tier string) {
 	gen = func(emit func(Case)) { gen0(emit); genRWR(emit) }
 	RunFamily(rep, gen, 50, bud, judgeC04(&unjudged))
 	rep.Coverage["unjudged_model_undefined"] = unjudged
+	twinDepth := 2
+	if tier == "thorough" {
+		twinDepth = 3
+	}
+	ts, to := c04TwinTypes(rep, twinDepth)
+	rep.Coverage["twin_type_sequences"] = ts
+	rep.Coverage["twin_type_operations"] = to
 	rep.Coverage["read_write_read_cases"] = nRWR
 	if nRWR < 40 {
 		rep.Violation("C04:vacuous:read-write-read", fmt.Sprintf("only %d read-write-read cases were generated", nRWR), map[string]interface{}{"case": "c04/rwr"})
 	}
-	rep.Coverage["rule"] = fmt.Sprintf("single-assignment matrix: 5 operators x %d destinations (13 numeric struct-field kinds, string, bool, time, *int64, nested pointer fields, slice elements by constant and computed index, map entries by constant and computed key, JSON members/elements, top-level variables) x %d sources (literals of every kind, fields of every numeric kind, method results, selector reads, arithmetic) restricted by the reference model to well-typed in-range pairs; sequences: every ordered pair (thorough: triple) of %d assignments incl. same destination twice, reads of what the previous action wrote, swaps; read-write-read inside one action list for every dependency-matrix location (fields, pointer chains, slices, maps, two-level slices and maps, JSON, top-level) and every aliased reader/writer pair. Oracle: the caller's own Go objects / JSON fact / data-context entries after Execute equal the reference model's post-state computed with standard-library reflection on an independent deep copy (every other field compared too). Non-trivial: every judged case (a real write happened).", len(c04Dests), len(c04Sources), len(c04Seq))
+	rep.Coverage["rule"] = fmt.Sprintf("single-assignment matrix: 5 operators x %d destinations (13 numeric struct-field kinds, string, bool, time, *int64, nested pointer fields, slice elements by constant and computed index, map entries by constant and computed key, JSON members/elements, top-level variables) x %d sources (literals of every kind, fields of every numeric kind, method results, selector reads, arithmetic) restricted by the reference model to well-typed in-range pairs; sequences: every ordered pair (thorough: triple) of %d assignments incl. same destination twice, reads of what the previous action wrote, swaps; read-write-read inside one action list for every dependency-matrix location (fields, pointer chains, slices, maps, two-level slices and maps, JSON, top-level) and every aliased reader/writer pair. fact TYPES as a dimension: three struct types of one process whose printed names coincide and whose equally named fields sit at different positions (one promoted from an embedded struct), every sequence of (type, field, write | compound write | read) up to depth 2 (thorough: 3), each operation its own knowledge base and engine call. Oracle: the caller's own Go objects / JSON fact / data-context entries after Execute equal the reference model's post-state computed with standard-library reflection on an independent deep copy (every other field compared too). Non-trivial: every judged case (a real write happened).", len(c04Dests), len(c04Sources), len(c04Seq))
 	rep.Assumptions = append(rep.Assumptions, "float->int conversions of non-integral values, float32 rounding, negative->unsigned and out-of-range values are outside the quantifier and skipped by the generator")
 }
